@@ -30,6 +30,12 @@ func verifScanRule(s *filterlist.RuleStorageScanner) (rules.Rule, int64) {
 }
 
 func verifRetrieveHostRule(s *filterlist.RuleStorage, idx int64) *rules.HostRule {
+	if verifFaulty {
+		verifFaultCalls++
+		if verifBool(vn("fault", verifFaultCalls, "")) {
+			return nil
+		}
+	}
 	for i := range verifScanIdx {
 		if verifScanIdx[i] == idx {
 			h, _ := verifScanRules[i].(*rules.HostRule)
@@ -40,6 +46,12 @@ func verifRetrieveHostRule(s *filterlist.RuleStorage, idx int64) *rules.HostRule
 }
 
 func verifRetrieveNetworkRuleDNS(s *filterlist.RuleStorage, idx int64) *rules.NetworkRule {
+	if verifFaulty {
+		verifFaultCalls++
+		if verifBool(vn("fault", verifFaultCalls, "")) {
+			return nil
+		}
+	}
 	for i := range verifScanIdx {
 		if verifScanIdx[i] == idx {
 			n, _ := verifScanRules[i].(*rules.NetworkRule)
@@ -174,4 +186,37 @@ func verifC02Vacuity() {
 	engine := NewDNSEngine(&filterlist.RuleStorage{})
 	_, _ = engine.MatchRequest(&DNSRequest{Hostname: verifString("host", 2, "zq")})
 	verifAssert(false, "vacuity")
+}
+
+// verifC19DNS: a DNS query while any retrieval from the storage may fail: no crash, and every
+// rule in the answer truly applies to the hostname.
+func verifC19DNS(nh, nn, patLen int) {
+	verifScanRules, verifScanIdx = nil, nil
+	for i := 0; i < nh; i++ {
+		verifScanRules = append(verifScanRules, rules.VerifHostRule(vn("h", i, ""), 1+i%2))
+		verifScanIdx = append(verifScanIdx, int64(1)<<32|int64(10*i))
+	}
+	for i := 0; i < nn; i++ {
+		verifScanRules = append(verifScanRules, rules.VerifDNSNetRule(vn("n", i, ""), patLen))
+		verifScanIdx = append(verifScanIdx, int64(2)<<32|int64(10*i+3))
+	}
+	host := verifString("host", 2, "zq")
+	engine := NewDNSEngine(&filterlist.RuleStorage{})
+	verifFaulty, verifFaultCalls = true, 0
+	res, matched := engine.MatchRequest(&DNSRequest{Hostname: host})
+	verifFaulty = false
+	fresh := rules.NewRequestForHostname(host)
+	for _, n := range res.NetworkRules {
+		verifAssert(n.Match(fresh), "c19: every network rule in a degraded DNS answer matches the hostname")
+	}
+	for _, h := range res.HostRulesV4 {
+		verifAssert(h.Match(host) && h.IP.Is4(), "c19: every IPv4 host rule in a degraded DNS answer names the hostname")
+	}
+	for _, h := range res.HostRulesV6 {
+		verifAssert(h.Match(host) && !h.IP.Is4(), "c19: every IPv6 host rule in a degraded DNS answer names the hostname")
+	}
+	if verifFaultCalls > 0 {
+		verifReach("c19.dns")
+	}
+	verifAssert(matched == (res.NetworkRule != nil || len(res.HostRulesV4)+len(res.HostRulesV6) > 0), "c19: matched reflects what is in the degraded answer")
 }
